@@ -181,7 +181,7 @@ def machine_factory(ctx):
             self.step("read", k=k)
 
         @precondition(lambda self: bool(self.model))
-        @rule(k=st.integers(0, 2), seed=st.integers(0, 10**6), how=st.sampled_from(["slice", "slice_step", "slice_neg", "tuple", "idx", "int"]))
+        @rule(k=st.integers(0, 2), seed=st.integers(0, 10**6), how=st.sampled_from(["slice", "slice_step", "slice_neg", "tuple", "idx", "idx_block", "idx_block", "idx_gaps", "int"]))
         def batch(self, k, seed, how):
             self.step("batch", k=k, seed=seed, how=how)
 
@@ -293,7 +293,10 @@ def machine_factory(ctx):
             p = self.path(k)
             h = sha(p)
             try:
-                make_samples(sc, new).write(p, append=True)
+                bad = make_samples(sc, new)
+                if must_refuse and g.random() < 0.5:
+                    bad.tbl.meta["run"] = "B%d" % seed     # a further top-level metadata entry the file does not have
+                bad.write(p, append=True)
             except Exception:
                 if sha(p) != h:
                     raise Violation("a refused append (%s) altered the file" % kind)
@@ -378,6 +381,25 @@ def machine_factory(ctx):
                 key, rows = (a, b), np.arange(n)[a:b]
             elif how == "idx":
                 rows = g.integers(0, n, size=int(g.integers(1, n + 3)))
+                key = np.array(rows)
+            elif how == "idx_block":
+                # a block of consecutive rows in an order of the caller's choice: ascending, descending, or shuffled with the
+                # smallest row first and the largest last
+                a = int(g.integers(0, n)); b = int(g.integers(a, n))
+                blk = np.arange(a, b + 1)
+                kind = int(g.integers(0, 4))
+                if kind == 1:
+                    blk = blk[::-1]
+                elif kind >= 2 and len(blk) > 2:
+                    blk = np.concatenate([blk[:1], g.permutation(blk[1:-1]), blk[-1:]])
+                rows = blk
+                key = np.array(rows)
+            elif how == "idx_gaps":
+                # repeats and gaps whose span happens to equal the number of requested rows - 1
+                m = int(g.integers(2, max(3, min(n, 8)) + 1))
+                a = int(g.integers(0, max(1, n - m + 1)))
+                inner = np.sort(g.integers(a, min(n - 1, a + m - 1) + 1, size=max(0, m - 2)))
+                rows = np.concatenate([[a], inner, [min(n - 1, a + m - 1)]]).astype(int)
                 key = np.array(rows)
             else:
                 size = int(g.integers(1, n + 1))
